@@ -379,3 +379,49 @@ def spec_permutation_operator(dims, perm, inv_perm=False):
     N = _prod(dims)
     Id = sym.identity(N)
     return spec_permute_systems(Id, perm, dims, dims, True, inv_perm)
+
+
+# ---------------------------------------------------------------------------------------------
+# perm_sign / projectors (call-site contracts used by C18)
+# ---------------------------------------------------------------------------------------------
+def sign_of(perm0):
+    """(-1)^inversions of a permutation of 0..n-1"""
+    inv = 0
+    for i in range(len(perm0)):
+        for j in range(i + 1, len(perm0)):
+            if perm0[i] > perm0[j]:
+                inv += 1
+    return -1 if inv % 2 else 1
+
+
+def summary_perm_sign(interp, args, kw):
+    """perm_sign(perm): requires perm to be a permutation of 1..n (the code indexes np.eye(n)[:, perm - 1]);
+    ensures result == (-1)^inversions."""
+    perm = _perm_list(args[0])
+    n = len(perm)
+    ok = sorted(perm) == list(range(1, n + 1))
+    pre(interp, "perm_sign: argument %s is a permutation of 1..n (1-indexed)" % perm, ok)
+    if not ok:
+        raise Unsupported("call-site precondition of perm_sign failed")
+    return sign_of([x - 1 for x in perm])
+
+
+def summary_permutation_operator(interp, args, kw):
+    """permutation_operator(dim, perm, inv_perm=False, is_sparse=False): requires perm a permutation of 0..n-1 and, when dim is a
+    vector, len(dim) == len(perm) with every entry >= 1; ensures an N x N 0/1 matrix (N = prod dim), see spec_permutation_operator."""
+    from vt.pyvc.interp import AbsArr
+
+    a = bind(["dim", "perm", "inv_perm", "is_sparse"], {"inv_perm": False, "is_sparse": False}, args, kw)
+    perm = _perm_list(a["perm"])
+    n = len(perm)
+    pre(interp, "permutation_operator: perm %s is a permutation of 0..n-1" % perm, sorted(perm) == list(range(n)))
+    dim = a["dim"]
+    if isinstance(dim, (int, sp.Expr)):
+        d = [dim] * n
+    else:
+        d = _aslist(dim)
+        pre(interp, "permutation_operator: len(dim) == len(perm)", len(d) == n)
+    pre(interp, "permutation_operator: every local dimension >= 1", sp.And(*[sp.Ge(sp.sympify(x), 1) for x in d]) if any(is_sym(x) for x in d) else all(int(x) >= 1 for x in d))
+    pre(interp, "permutation_operator: flags are booleans", isinstance(a["inv_perm"], bool) and isinstance(a["is_sparse"], bool))
+    N = _prod(d)
+    return AbsArr((N, N))
